@@ -190,7 +190,7 @@ class Recorder(object):
 
 def run_case(prog, cfg=None, faults=None, cleanups=None, hooks=False, record_events=False,
              formatters=None, keep_model=False, reporters=None, async_steps=False, texts=None,
-             step_extra=None, probe_status=False):
+             step_extra=None, probe_status=False, second_run=False, second_cfg=None, reset_between=True):
     """faults: {k: "exc"|"assert"} k-th hook invocation raises.
     cleanups: {trigger: [(cid, raising, layer)]}, trigger = ("hook", name, path|None) | ("step", path, idx)
     formatters: callable(config, o2p) -> list of formatter objects (in addition to the recorder)
@@ -341,6 +341,22 @@ def run_case(prog, cfg=None, faults=None, cleanups=None, hooks=False, record_eve
         runner.formatters = fmts
         try:
             obs["verdict"] = bool(runner.run())
+            if second_run:
+                # history: the SAME model objects are run again (documented reset() in between) by a new runner;
+                # the observation is that of the second run and must equal a fresh run's
+                if reset_between:
+                    for f_ in feats:
+                        f_.reset()
+                for key in ("calls", "hooks", "cleanups", "events"):
+                    del obs[key][:]
+                hookcount[0] = 0
+                config2 = config
+                if second_cfg is not None:
+                    config2 = m["Configuration"](config_args(second_cfg), load_config=False)
+                runner2 = m["ModelRunner"](config2, feats, step_registry=reg)
+                runner2.hooks = runner.hooks
+                runner2.formatters = runner.formatters if not record_events else fmts
+                obs["verdict"] = bool(runner2.run())
         except BaseException as e:          # noqa - property: nothing escapes
             obs["escaped"] = type(e).__name__
             obs["escaped_msg"] = str(e)[:200]
